@@ -115,11 +115,322 @@ var _ = store.MAX_NUM_CHUNK
 
 func C17(job *Job, r *Report) {
 	r.Level = "model_checking"
-	r.Rule = "part (b): two and three HStore.GC requests for one bucket from concurrent threads on a store where the range [0,1] is collectable; every interleaving at lock acquisitions, file-system calls and spawns with at most N preemptions (quick 2, thorough 3); a pass is in progress from the acceptance of its request until its goroutine has left gcMgr.gc (thread life observed by the scheduler); violation: two passes overlap, or a second request is accepted inside that window"
+	r.Rule = "part (a): every store layout of 1..5 (thorough 6) data-file slots, each a gap / a full file / a half file (last slot a real file), x 5 first-record-timestamp patterns (all old, all recent, last recent, last two recent, first recent = non-monotone) x head {empty, one unflushed record, one flushed record}, built directly as data files (index files are rebuilt); on each: ALL (start,end) in [-1..7]^2 x no_gc_days {-1 (configured 2), 0, 1, 10000} x merge off/on with pretend=true (mutation log must stay empty), every refused tuple repeated with pretend=false (must be refused and change nothing), and one real pass per distinct (resolved range, merge, days) judged on the memfs mutation log by the property's own rules: no mutation of the head data file or later, nothing outside [start,end] except appends to a single earlier file, the next non-empty file after end older than the limit. part (b): two and three HStore.GC requests for one bucket from concurrent threads on a store where the range [0,1] is collectable; every interleaving at lock acquisitions, file-system calls and spawns with at most N preemptions (quick 2, thorough 3); a pass is in progress from the acceptance of its request until its goroutine has left gcMgr.gc (thread life observed by the scheduler); violation: two passes overlap, or a second request is accepted inside that window"
 	r.Assumptions = []string{"sequentially consistent interleavings at synchronisation/file-system granularity"}
 	pb := 2
 	if job.Tier != "quick" {
 		pb = 3
 	}
-	runScenarios(job, r, c17bScenarios(), []int{pb}, -1)
+	if job.Part == "" || job.Part == "b" {
+		runScenarios(&Job{Check: job.Check, Tier: job.Tier, Shard: job.Shard, NShards: job.NShards, Seed: job.Seed}, r, c17bScenarios(), []int{pb}, -1)
+	}
+	if job.Part == "" || job.Part == "a" {
+		C17a(job, r)
+	}
+}
+
+// ---------------------------------------------------------------- part (a): arguments x layouts
+
+type fileSpec struct {
+	kind   int  // 0 gap, 1 full (2 records), 2 half (1 record)
+	recent bool // first-record timestamp younger than the age limit
+}
+
+type gcLayoutSpec struct {
+	files []fileSpec
+	head  int // 0 empty, 1 one unflushed record, 2 one flushed record
+}
+
+func (l gcLayoutSpec) String() string {
+	var sb strings.Builder
+	for _, f := range l.files {
+		c := "-FH"[f.kind : f.kind+1]
+		if f.recent && f.kind != 0 {
+			c = strings.ToLower(c)
+		}
+		sb.WriteString(c)
+	}
+	return sb.String() + "/head" + fmt.Sprint(l.head)
+}
+
+func cfgArgs() *store.VerifCfg {
+	return &store.VerifCfg{Name: "gcargs", NumBucket: 1, TreeHeight: 3, DataFileMax: 512, SplitCap: 1024, BufIOCap: 4096,
+		BodyMax: 64 << 10, BodyInC: 4096, MaxReq: 3, NoGCDays: 2}
+}
+
+// buildLayout writes data files directly (index files are caches and get rebuilt).
+func buildLayout(l gcLayoutSpec) *vos.FS {
+	fs := vos.New()
+	now := vtime.Base.Unix()
+	n := 0
+	for i, f := range l.files {
+		if f.kind == 0 {
+			continue
+		}
+		ts := uint32(now - 3*86400 + int64(i))
+		if f.recent {
+			ts = uint32(now - 3600 + int64(i))
+		}
+		var img []byte
+		nrec := 2
+		if f.kind == 2 {
+			nrec = 1
+		}
+		for j := 0; j < nrec; j++ {
+			key := fmt.Sprintf("k%d_%d", i, j)
+			if j == 0 && i%2 == 0 {
+				key = "dup" // the same key in several files: all but the last are superseded
+			}
+			n++
+			img = append(img, refEncode(store.VerifRec{Key: key, Body: []byte(fmt.Sprintf("v%d", n)), Ver: int32(n), TS: ts + uint32(j)})...)
+		}
+		fs.WriteFileRaw(fmt.Sprintf("/db/%03d.data", i), img)
+	}
+	return fs
+}
+
+type gcArgs struct {
+	start, end, days int
+	merge, pretend   bool
+}
+
+func c17aLayout(l gcLayoutSpec, r *Report) *Mismatch {
+	cfg := cfgArgs()
+	base := buildLayout(l)
+	desc := l.String()
+	type outcome struct {
+		b, e int
+		err  bool
+	}
+	// phase 1: on one instance, ask with pretend=true for every argument tuple; refused requests are repeated with pretend=false
+	var accepted = map[[4]int][]gcArgs{} // (begin,end,merge,days-class) -> argument tuples resolving to it
+	var mm *Mismatch
+	var head int
+	var fsAtReq *vos.FS
+	res := vsched.Run(vsched.Opts{}, func(s *vsched.Sched) {
+		m := &Machine{Cfg: cfg, S: s, FS: base.Clone()}
+		vos.Attach(m.FS)
+		vtime.Enable()
+		if err := m.Open(); err != nil {
+			mm = &Mismatch{Op: desc, Where: "open", Want: "opens", Got: err.Error(), Class: "open-error"}
+			return
+		}
+		defer m.Exit()
+		s.Drain()
+		Tick()
+		switch l.head {
+		case 1:
+			m.Cmd(fmtSet("headkey", 0, 0, []byte("head")))
+		case 2:
+			m.Cmd(fmtSet("headkey", 0, 0, []byte("head")))
+			m.St.VerifFlush(true)
+		}
+		s.Drain()
+		Tick()
+		head = m.St.VerifNewHead(0)
+		fsAtReq = m.FS.Clone()
+		m.FS.StartLog()
+		for _, days := range []int{-1, 0, 1, 10000} {
+			for st := -1; st <= 7; st++ {
+				for en := -1; en <= 7; en++ {
+					for _, mg := range []bool{false, true} {
+						b, e, err := m.St.GC(0, st, en, days, mg, true)
+						r.Count("evaluations", 1)
+						r.Count("gc_requests_pretend", 1)
+						if len(m.FS.Log) != 0 {
+							mm = &Mismatch{Op: fmt.Sprintf("%s gc(%d,%d,days=%d,merge=%v,pretend)", desc, st, en, days, mg), Where: "mutation log", Want: "pretend changes nothing", Got: mutString(&m.FS.Log[0]), Class: "gc-pretend-mutates"}
+							return
+						}
+						if err != nil {
+							// refused: the real request must be refused too and change nothing
+							_, _, err2 := m.St.GC(0, st, en, days, mg, false)
+							s.Drain()
+							r.Count("evaluations", 1)
+							r.Count("gc_requests_refused", 1)
+							if err2 == nil {
+								mm = &Mismatch{Op: fmt.Sprintf("%s gc(%d,%d,days=%d,merge=%v)", desc, st, en, days, mg), Where: "request", Want: "refused like the pretend request: " + err.Error(), Got: "accepted", Class: "gc-pretend-disagrees"}
+								return
+							}
+							if len(m.FS.Log) != 0 {
+								mm = &Mismatch{Op: fmt.Sprintf("%s gc(%d,%d,days=%d,merge=%v)", desc, st, en, days, mg), Where: "mutation log", Want: "a refused request changes nothing", Got: mutString(&m.FS.Log[0]), Class: "gc-refused-mutates"}
+								return
+							}
+							continue
+						}
+						mgi := 0
+						if mg {
+							mgi = 1
+						}
+						k := [4]int{b, e, mgi, days}
+						accepted[k] = append(accepted[k], gcArgs{st, en, days, mg, false})
+					}
+				}
+			}
+		}
+	})
+	if res.Aborted != "" {
+		return &Mismatch{Op: desc, Where: "process", Want: "runs", Got: res.Aborted + ": " + res.Msg, Class: "process-" + res.Aborted}
+	}
+	if mm != nil {
+		return mm
+	}
+	// phase 2: one real pass per distinct (resolved range, merge, days) on a fresh process started from the directory as it was
+	// at request time (unflushed head data is lost in that copy, which only makes the head file absent or shorter)
+	nowAtReq := vtime.Now().Unix()
+	for k, args := range accepted {
+		a := args[0]
+		begin, end := k[0], k[1]
+		var log []vos.Mut
+		var before map[int][]byte
+		var gcBegin, gcEnd int
+		var gcErr error
+		var head2 int
+		res := vsched.Run(vsched.Opts{}, func(s *vsched.Sched) {
+			m := &Machine{Cfg: cfg, S: s, FS: fsAtReq.Clone()}
+			vos.Attach(m.FS)
+			if err := m.Open(); err != nil {
+				gcErr = err
+				return
+			}
+			defer m.Exit()
+			s.Drain()
+			if l.head == 1 {
+				m.Cmd(fmtSet("headkey", 0, 0, []byte("head")))
+			}
+			head2 = m.St.VerifNewHead(0)
+			before = m.dataFiles(0)
+			m.FS.StartLog()
+			gcBegin, gcEnd, gcErr = m.St.GC(0, a.start, a.end, a.days, a.merge, false)
+			s.Drain()
+			log = append([]vos.Mut(nil), m.FS.Log...)
+		})
+		r.Count("evaluations", 1)
+		r.Count("gc_passes", 1)
+		op := fmt.Sprintf("%s gc(%d,%d,days=%d,merge=%v) -> [%d,%d]", desc, a.start, a.end, a.days, a.merge, begin, end)
+		if res.Aborted != "" {
+			return &Mismatch{Op: op, Where: "process", Want: "runs", Got: res.Aborted + ": " + res.Msg, Class: "process-" + res.Aborted}
+		}
+		if gcErr != nil {
+			// the reopened process has a different head (a restart starts a new file); a refusal here is not judged
+			r.Count("gc_passes_refused_after_reopen", 1)
+			continue
+		}
+		begin, end = gcBegin, gcEnd
+		days := a.days
+		if days < 0 {
+			days = cfg.NoGCDays
+		}
+		// rule: age limit, judged on the inventory: the next non-empty file after end must be older than the limit
+		next := -1
+		for id := end + 1; id < 998; id++ {
+			if d, ok := before[id]; ok && len(d) > 0 {
+				next = id
+				break
+			}
+		}
+		if next >= 0 {
+			recs, _ := ScanFile(before[next])
+			if len(recs) > 0 && !(nowAtReq-int64(recs[0].TS) > int64(days)*86400) && !(vtime.Now().Unix()-int64(recs[0].TS) > int64(days)*86400) {
+				return &Mismatch{Op: op, Where: "age limit", Want: fmt.Sprintf("file %d (first record %ds old) protects the range for %d days", next, nowAtReq-int64(recs[0].TS), days), Got: "collected", Class: "gc-age-limit"}
+			}
+		}
+		appendOnly := -1
+		for i := range log {
+			mu := &log[i]
+			if !strings.HasSuffix(mu.Path, ".data") && !strings.HasSuffix(mu.Path2, ".data") {
+				continue
+			}
+			var id int
+			p := mu.Path
+			fmt.Sscanf(p[strings.LastIndex(p, "/")+1:], "%03d.data", &id)
+			if id >= head2 {
+				return &Mismatch{Op: op, Where: "mutation log", Want: fmt.Sprintf("head file %d and later untouched", head2), Got: mutString(mu), Class: "gc-touches-head"}
+			}
+			if id >= begin && id <= end {
+				continue
+			}
+			// outside the range: only appends to ONE earlier file
+			old := len(before[id])
+			okAppend := id < begin && ((mu.Op == "write" && int(mu.Off) >= old) || (mu.Op == "create" && old == 0))
+			if !okAppend || (appendOnly >= 0 && appendOnly != id) {
+				return &Mismatch{Op: op, Where: "mutation log", Want: fmt.Sprintf("nothing outside [%d,%d] except appends to one earlier file", begin, end), Got: mutString(mu), Class: "gc-outside-range"}
+			}
+			appendOnly = id
+		}
+		_ = head
+	}
+	return nil
+}
+
+func c17aLayouts(tier string) []gcLayoutSpec {
+	maxFiles := 5
+	if tier != "quick" {
+		maxFiles = 6
+	}
+	var out []gcLayoutSpec
+	for n := 1; n <= maxFiles; n++ {
+		total := 1
+		for i := 0; i < n; i++ {
+			total *= 3
+		}
+		for x := 0; x < total; x++ {
+			kinds := make([]int, n)
+			y := x
+			nonGap := 0
+			for i := 0; i < n; i++ {
+				kinds[i] = y % 3
+				y /= 3
+				if kinds[i] != 0 {
+					nonGap++
+				}
+			}
+			if kinds[n-1] == 0 || nonGap == 0 {
+				continue // the last slot is a real file (otherwise it is a shorter layout)
+			}
+			// timestamp patterns: all old, all recent, last recent, last two recent, first recent (non-monotone)
+			for pat := 0; pat < 5; pat++ {
+				fsx := make([]fileSpec, n)
+				for i := range fsx {
+					rec := false
+					switch pat {
+					case 1:
+						rec = true
+					case 2:
+						rec = i == n-1
+					case 3:
+						rec = i >= n-2
+					case 4:
+						rec = i == 0
+					}
+					fsx[i] = fileSpec{kinds[i], rec}
+				}
+				for head := 0; head < 3; head++ {
+					out = append(out, gcLayoutSpec{fsx, head})
+				}
+			}
+		}
+	}
+	return out
+}
+
+func C17a(job *Job, r *Report) {
+	unit := 0
+	for _, l := range c17aLayouts(job.Tier) {
+		mine := unit%job.NShards == job.Shard
+		unit++
+		if !mine || r.Expired() {
+			continue
+		}
+		r.Count("layouts", 1)
+		r.Count("nontrivial_inputs", 1)
+		r.Distinct("states", l.String())
+		if unit%97 == 0 {
+			r.Sample(map[string]interface{}{"layout": l.String(), "args": "all (start,end) in [-1..7]^2 x days {-1,0,1,10000} x merge x pretend"})
+		}
+		if mm := c17aLayout(l, r); mm != nil {
+			cls := mm.Class
+			r.Violate(Violation{Property: "C17", Sig: fmt.Sprintf("C17|%s|%s", cls, mm.Op), Class: cls, Summary: mm.String(),
+				Replay: mustJSON(map[string]interface{}{"kind": "gcargs", "layout": l.String(), "mismatch": mm})})
+		}
+	}
 }
